@@ -43,6 +43,28 @@ def run (op : String) (a : Json) : Option (Except String Json) :=
       pure <| match bindBest keys cands with
         | .ok c => ok (jStr c)
         | .error e => jErr e
+  | "dict.bestcfg" => some do
+      -- one best-match item under the given configuration, then one failing conversion:
+      -- candidates carry their attempt under a strict and under a lenient configuration
+      let keys ← dList dStr (field a "keys")
+      let cs ← asArr (field a "cands")
+      let cands ← cs.mapM (fun j => do
+        let att (k : String) : Except String (Option Nat) := match field j k with
+          | .null => pure none
+          | x => (dNat x).map some
+        let st ← att "attempt_strict"
+        let le ← att "attempt_lenient"
+        pure ({ id := ← dStr (field j "id"), localNames := ← dList dStr (field j "local_names"),
+                attempt := fun c => if c.failOnConverterWarnings then st else le } : CandC))
+      let cfg := dCfg (field a "config")
+      let r := workAll cfg [.best keys cands, .convert true]
+      let jDone : Except Err Done → Json := fun d => match d with
+        | .ok (.chose c) => ok (jStr c)
+        | .ok .kept => ok (Json.str "kept")
+        | .ok .warned => ok (Json.str "warned")
+        | .error e => jErr e
+      pure <| ok (jObj [("steps", jList jDone r.1),
+        ("after", Json.arr #[jBool r.2.failOnUnknownProperties, jBool r.2.failOnUnknownAttributes, jBool r.2.failOnConverterWarnings])])
   | _ => none
 
 end OpsDictDec
